@@ -21,9 +21,9 @@ use svproto::*;
 // ---------------------------------------------------------------------------------------
 // shared: prelude + probe
 
-const PRELUDE: &str = "(define (probe-fib n) (if (< n 2) n (+ (probe-fib (- n 1)) (probe-fib (- n 2)))))\n(define probe-counter (let ((n 0)) (lambda () (set! n (+ n 1)) n)))\n(define probe-box (box 41))\n(probe-counter)";
-const PROBE: &str = "(#%verif-depths)\n(list (probe-fib 10) (probe-counter) (begin (set-box! probe-box (+ 1 (unbox probe-box))) (unbox probe-box)))";
-const PROBE_EXPECT: &str = "(i:0 . i:0) (i:55 i:2 i:42)";
+const PRELUDE: &str = "(define (probe-fib n) (if (< n 2) n (+ (probe-fib (- n 1)) (probe-fib (- n 2)))))\n(define probe-counter (let ((n 0)) (lambda () (set! n (+ n 1)) n)))\n(define probe-box (box 41))\n(define probe-param (make-parameter 1))\n(define probe-winds (box 0))\n(probe-counter)";
+const PROBE: &str = "(#%verif-depths)\n(list (probe-fib 10) (probe-counter) (begin (set-box! probe-box (+ 1 (unbox probe-box))) (unbox probe-box)) (probe-param) (unbox probe-winds) (with-output-to-string (lambda () (display \"w\"))))\n(display \"probe-out\")";
+const PROBE_EXPECT: &str = "(i:0 . i:0) (i:55 i:2 i:42 i:1 i:0 s:\"w\")";
 
 /// "file.rs:line" of a panic message of the form "... @ /path/to/file.rs:line"
 fn panic_site(msg: &str) -> String {
@@ -66,10 +66,10 @@ fn judge_usable(tag: &str, r: &CaseResult, inputs: usize, shown: &str, cfg: &Con
     }
     let probe = r.steps.last().unwrap();
     let got = probe.values.iter().filter(|v| *v != "#void").cloned().collect::<Vec<_>>().join(" ");
-    if probe.outcome != Outcome::Ok || got != PROBE_EXPECT {
+    if probe.outcome != Outcome::Ok || got != PROBE_EXPECT || !probe.stdout.contains("probe-out") {
         return Err(Failure::new(
             format!("{}:engine-not-usable", tag),
-            format!("{}\nprobe program after the input: outcome {:?} {} {}\nvalues {:?}\nexpected {}", ctxt, probe.outcome, probe.err_kind, probe.err_msg, probe.values, PROBE_EXPECT),
+            format!("{}\nprobe program after the input: outcome {:?} {} {}\nvalues {:?} stdout {:?}\nexpected {} and stdout \"probe-out\"", ctxt, probe.outcome, probe.err_kind, probe.err_msg, probe.values, probe.stdout, PROBE_EXPECT),
         ));
     }
     Ok(true)
@@ -93,13 +93,41 @@ pub enum TextCase {
     Mutated { text: String },
     Soup { text: String },
     Unicode { text: String },
+    /// a run time error raised inside the extent of dynamic-wind / parameterize /
+    /// with-output-to-string (possibly a few calls deep): the unwinding must restore the state
+    Unwind { text: String },
 }
 
 impl TextCase {
     fn text(&self) -> &str {
         match self {
-            TextCase::Mutated { text } | TextCase::Soup { text } | TextCase::Unicode { text } => text,
+            TextCase::Mutated { text } | TextCase::Soup { text } | TextCase::Unicode { text } | TextCase::Unwind { text } => text,
         }
+    }
+}
+
+const FAILING: &[&str] = &["(car 5)", "(error \"boom\")", "(vector-ref (vector) 1)", "(raise 'boom)", "(+ 1 \"a\")", "(hash-ref (hash) 'k)", "(list-ref (list 1) 3)", "((lambda (x) x))", "(string-ref \"\" 0)", "(exact->inexact 'a)"];
+
+fn unwind_text(wrapper: u8, fail: u8, depth: u8, caught: bool) -> String {
+    let mut e = FAILING[fail as usize % FAILING.len()].to_string();
+    for i in 0..(depth % 4) {
+        e = match i % 3 {
+            0 => format!("(+ 1 {})", e),
+            1 => format!("(let ((t {})) t)", e),
+            _ => format!("((lambda (k) (list k {})) 0)", e),
+        };
+    }
+    let w = match wrapper % 5 {
+        0 => format!("(dynamic-wind (lambda () (set-box! probe-winds (+ (unbox probe-winds) 1))) (lambda () {}) (lambda () (set-box! probe-winds (- (unbox probe-winds) 1))))", e),
+        1 => format!("(parameterize ((probe-param 2)) {})", e),
+        2 => format!("(with-output-to-string (lambda () (display \"in\") {}))", e),
+        3 => format!("(parameterize ((probe-param 3)) (dynamic-wind (lambda () (set-box! probe-winds (+ (unbox probe-winds) 1))) (lambda () (with-output-to-string (lambda () {}))) (lambda () (set-box! probe-winds (- (unbox probe-winds) 1)))))", e),
+        _ => format!("(dynamic-wind (lambda () (set-box! probe-winds (+ (unbox probe-winds) 1))) (lambda () (dynamic-wind (lambda () (set-box! probe-winds (+ (unbox probe-winds) 10))) (lambda () {}) (lambda () (set-box! probe-winds (- (unbox probe-winds) 10))))) (lambda () (set-box! probe-winds (- (unbox probe-winds) 1))))", e),
+    };
+    if caught {
+        format!("(with-handler (lambda (err) 'caught) {})", w)
+    } else {
+        w
     }
 }
 
@@ -200,7 +228,8 @@ fn text_case() -> impl Strategy<Value = TextCase> {
         TextCase::Soup { text: s }
     });
     let unicode = ".{0,60}".prop_map(|s| TextCase::Unicode { text: s });
-    prop_oneof![6 => mutated, 3 => soup, 1 => unicode]
+    let unwind = (any::<u8>(), any::<u8>(), any::<u8>(), any::<bool>()).prop_map(|(w, f, d, c)| TextCase::Unwind { text: unwind_text(w, f, d, c) });
+    prop_oneof![6 => mutated, 3 => soup, 1 => unicode, 2 => unwind]
 }
 
 fn check_text(ctx: &Ctx, ws: &mut Workers, c: &TextCase, counting: bool) -> PropResult {
